@@ -1440,7 +1440,17 @@ func checkReadErrorReporting(p *Prog, r *Report) {
 		for _, ev := range errVars {
 			for _, b := range c.live {
 				ct := c.CondTerm(b)
-				if ct == nil || len(b.Succs) != 2 || ct.Key() != ne(tVar(ev), mk("nil")).Key() {
+				if ct == nil || len(b.Succs) != 2 {
+					continue
+				}
+				failSide := -1
+				switch ct.Key() {
+				case ne(tVar(ev), mk("nil")).Key():
+					failSide = 0
+				case eq(tVar(ev), mk("nil")).Key():
+					failSide = 1 // if err == nil { …; continue }; report
+				}
+				if failSide < 0 {
 					continue
 				}
 				n++
@@ -1454,7 +1464,7 @@ func checkReadErrorReporting(p *Prog, r *Report) {
 					})
 					return f
 				}
-				res := c.FindPath(PathQuery{From: Point{b.Succs[0], 0}, IsBarrier: isNotify, ExitIsTarget: true,
+				res := c.FindPath(PathQuery{From: Point{b.Succs[failSide], 0}, IsBarrier: isNotify, ExitIsTarget: true,
 					EdgeOK: func(from, to *cfg.Block) bool {
 						// a session may leave silently when it is closed itself: its waiters wake through die
 						if ls.typ != "UDPSession" {
@@ -1471,7 +1481,7 @@ func checkReadErrorReporting(p *Prog, r *Report) {
 					}})
 				construct := "failed socket read in " + fi.Name
 				// and the loop ends: no path from the failed read goes back to reading
-				again := c.FindPath(PathQuery{From: Point{b.Succs[0], 0}, IsTarget: func(nd ast.Node, _ Point) bool {
+				again := c.FindPath(PathQuery{From: Point{b.Succs[failSide], 0}, IsTarget: func(nd ast.Node, _ Point) bool {
 					hit := false
 					inspectShallow(nd, func(x ast.Node) bool {
 						if call, ok := x.(*ast.CallExpr); ok {
@@ -1693,7 +1703,17 @@ func checkWriteErrorReporting(p *Prog, r *Report) {
 		for _, ev := range errVars {
 			for _, b := range c.live {
 				ct := c.CondTerm(b)
-				if ct == nil || len(b.Succs) != 2 || ct.Key() != ne(tVar(ev), mk("nil")).Key() {
+				if ct == nil || len(b.Succs) != 2 {
+					continue
+				}
+				failSide := -1
+				switch ct.Key() {
+				case ne(tVar(ev), mk("nil")).Key():
+					failSide = 0
+				case eq(tVar(ev), mk("nil")).Key():
+					failSide = 1 // if err == nil { …; continue }; report
+				}
+				if failSide < 0 {
 					continue
 				}
 				n++
@@ -1730,7 +1750,7 @@ func checkWriteErrorReporting(p *Prog, r *Report) {
 					}
 					return true
 				})
-				res := c.FindPath(PathQuery{From: Point{b.Succs[0], 0}, ExitIsTarget: true, IsBarrier: func(nd ast.Node, _ Point) bool {
+				res := c.FindPath(PathQuery{From: Point{b.Succs[failSide], 0}, ExitIsTarget: true, IsBarrier: func(nd ast.Node, _ Point) bool {
 					if carriedOut {
 						// the error is stored into a variable that the function returns
 						if as, ok := nd.(*ast.AssignStmt); ok && len(as.Lhs) == len(as.Rhs) {
